@@ -447,26 +447,27 @@ def _check_property(prop, tier, seed, mine, scratch, findings, t0):
         seen_f.add(fid)
         out_lines.append('KNOWN-FINDING: property=%s %s' % (prop, listed.get('line', '').split(' ', 2)[-1]))
 
-    structural = None
+    structural = []
     if prop == 'C19':
-        verdict, msg = structural_c19()
-        structural = {'check': 'from_tzif returns only validated data (syntactic check of /repo/src/local/timezone.rs)', 'verdict': verdict, 'detail': msg}
-        if verdict == 'violation':
-            nviol += 1
-            rp = os.path.join(VERIF, 'replays', 'C19-structural-from_tzif.json')
-            rec = {'property': 'C19', 'obligation': 'structural: from_tzif must pass its result through validate()', 'function': 'TimeZone::from_tzif',
-                   'unit': 'tz', 'variant': 'A', 'verus_output': msg, 'inputs': None}
-            try:
-                import cesearch
-                ce = cesearch.search(prop, None, None, scratch, tier)
-                if ce:
-                    rec.update(ce)
-            except Exception as ex:
-                rec['ce_search_error'] = repr(ex)
-            json.dump(rec, open(rp, 'w'), indent=1)
-            out_lines.append('VIOLATION property=C19 replay=%s%s' % (rp, '' if rec.get('inputs') else ' no-failing-input-found'))
-        elif verdict == 'undecided':
-            undecided.append('structural: ' + msg)
+        for label, fnname, (verdict, msg) in (('from_tzif returns only validated data', 'TimeZone::from_tzif', structural_c19()),
+                                              ('Offset::resolve cannot abort on bad zone data', 'Offset::resolve', structural_resolve())):
+            structural.append({'check': label + ' (syntactic check of the source text, not a proof)', 'verdict': verdict, 'detail': msg})
+            if verdict == 'violation':
+                nviol += 1
+                rp = os.path.join(VERIF, 'replays', 'C19-structural-%s.json' % fnname.split('::')[-1])
+                rec = {'property': 'C19', 'obligation': 'structural: ' + label, 'function': fnname, 'unit': 'tz', 'variant': 'A', 'verus_output': msg, 'inputs': None}
+                if fnname.endswith('from_tzif'):
+                    try:
+                        import cesearch
+                        ce = cesearch.search(prop, None, None, scratch, tier)
+                        if ce:
+                            rec.update(ce)
+                    except Exception as ex:
+                        rec['ce_search_error'] = repr(ex)
+                json.dump(rec, open(rp, 'w'), indent=1)
+                out_lines.append('VIOLATION property=C19 replay=%s%s' % (rp, '' if rec.get('inputs') else ' no-failing-input-found'))
+            elif verdict == 'undecided':
+                undecided.append('structural: ' + msg)
 
     # ---------------- evidence ----------------
     wall = time.time() - t0
@@ -487,7 +488,7 @@ def _check_property(prop, tier, seed, mine, scratch, findings, t0):
             'extracted_items': sorted(items.values(), key=lambda x: (x['file'], x['name'])),
             'undecided': undecided, 'unstable': unstable, 'stability_runs': stab,
             'known_findings_printed': [l for l in out_lines if l.startswith('KNOWN-FINDING')],
-            'structural_checks': [structural] if structural else [],
+            'structural_checks': structural,
             'solver_ms_total': sum((row.get('ms') or 0) for row in fn_rows),
         },
         'assumptions': sorted(assumptions),
@@ -555,6 +556,25 @@ def structural_c19():
     if m and m.group(1) == m.group(2) and len(oks) == 1 and 'return Ok' not in code:
         return 'ok', 'from_tzif has a single Ok exit, `%s.validate()?; Ok(%s)`' % (m.group(1), m.group(2))
     return 'undecided', 'from_tzif calls validate() but not as the only exit `x.validate()?; Ok(x)`'
+
+
+def structural_resolve():
+    """Offset::resolve is outside Verus (cfg(unix), fs::read). C19 asks that a damaged /etc/localtime cannot abort the
+    program: on the source text, resolve() must not unwrap/expect/panic."""
+    import rustscan as rs
+    p = os.path.join(REPO, 'src', 'offset.rs')
+    try:
+        text = open(p).read()
+        items = rs.scan_items(text)
+        impl = [it for it in items if it.kind == 'impl' and it.name == 'impl Offset'][0]
+        fn = [it for it in rs.scan_items(text, impl.body_open + 1, impl.end - 1) if it.kind == 'fn' and it.name == 'resolve'][0]
+    except Exception as e:
+        return 'undecided', 'Offset::resolve not found (%s)' % e
+    code = re.sub(r'//[^\n]*', '', text[fn.body_open:fn.end])
+    bad = re.findall(r'\.unwrap\(\)|\.expect\(|panic!|unreachable!|\.unwrap_unchecked', code)
+    if bad:
+        return 'violation', 'Offset::resolve contains %s: an unreadable or invalid /etc/localtime would abort the program' % ', '.join(sorted(set(bad)))
+    return 'ok', 'Offset::resolve contains no unwrap/expect/panic'
 
 
 def _load_baseline():
